@@ -76,6 +76,19 @@ def run(chk):
             chk.fail("statistics with no frames do not give the zero i-vector", dict(ctx, got=hexlist(wz)))
         pterms.append("{| pj_m := %s; pj_t := %s; pj_s := %s; pj_rtol := %s; pj_atol := %s; pj_out := %s |}" % (
             iv.ivm_term(ubm.means, T, sigma), cq.nat(t), iv.gs_term(st0), cq.fl(2.0 ** -26), cq.fl(1e-10), cq.vec(w)))
+        # T / sigma are plain attributes: after an in-place edit of the arrays the machine holds (machine.sigma *= 4, machine.T[c] = 0) the
+        # next projection is the posterior mean under the EDITED values (nothing derived from the old ones is kept)
+        if i % 5 == 1:
+            me_ = iv.with_params(ubm, T, sigma, t)
+            me_.project(st0)                                # a first projection under the original parameters
+            me_.sigma *= 4.0
+            me_.T[r.randrange(C)] = 0.0
+            mf_ = iv.with_params(ubm, np.array(me_.T), np.array(me_.sigma), t)
+            we_, wf_ = np.asarray(me_.project(st0)), np.asarray(mf_.project(st0))
+            chk.count(1, key=("project after in-place edit",))
+            if not np.allclose(we_, wf_, rtol=1e-12, atol=1e-14):
+                chk.fail("after editing machine.sigma / machine.T in place, project() is not the posterior mean under the machine's current parameters (a fresh machine with the same values gives %s, this one %s)"
+                         % (wf_.tolist(), we_.tolist()), dict(ctx, history="project; sigma *= 4; T[c] = 0; project"))
         # covariances typed as integers (a legal way to write a sigma of ones and twos): the i-vector is that of the values
         if i % 7 == 3:
             sig_i = np.asarray(np.clip(np.rint(sigma * 2.0 / float(sigma.min())), 1, 9), dtype=np.int64)
@@ -218,8 +231,9 @@ def run(chk):
     chk.correspondence("IVectorMachine.project ~ IF.project", len(pterms), bad, info)
     bad, info = cq.run_cases("C10f", iv.IMPORTS, "if_case", "if_check", fterms, shard=40)
     chk.correspondence("IVectorMachine.fit (list input; T0 replayed from the seeded global draw) ~ IF.fit", len(fterms), bad, info)
-    chk.partial = ["ivector_monotone_partial: marginal-likelihood monotonicity for dim_t > 1 needs ln det A <= tr A - n (no determinant theory over R installed); "
-                   "validated numerically with slogdet after every iteration"]
+    chk.notes["dim_t > 1"] = ("marginal-likelihood monotonicity is a theorem for any dim_t, with and without covariance updating while no floor is active "
+                              "(Proofs/IVGeneral.v, IVGeneralSigma.v: ln det through a Cholesky factor under a contract); with an active floor it is only "
+                              "evaluated numerically (slogdet after every iteration)")
     return chk.finish(
         rule="UBMs C,D<=3, dim_t 1,2,3,5, fractional counts, every 6th case with a zero-count component and every 6th with a component of tiny (1e-3..1e-6) counts, update_sigma on/off, floors 1e-10 or binding; "
              "marginal likelihood computed independently (slogdet) after every iteration; distinct = (project,C,D,t) | (fit,C,D,t,update_sigma,zero-count)")
